@@ -10,14 +10,17 @@ RULE = ('chunk cases: a sequence of byte-blob records (payload sizes 0 .. 70000 
         'random multi-fault plans; writer bare and behind BufWriter / reader bare and behind BufReader (both compared exactly with the model: stored bytes and '
         'item sequence; BufWriter and BufReader are modelled in BufModel.v), and behind the lz4 encoder / decoder (judged by the '
         'extracted outcome oracle chunk_oracle on the observed outcome); '
-        'non-trivial = the plan actually fired (a short count, interrupt or error was delivered); distinct by case text')
+        'storage that lost its tail before the read (cut inside a payload / a header / on a record boundary); non-trivial = the plan actually fired (a short count, interrupt or error was delivered); distinct by case text')
 UNIQUE_NOTE = 'dump_ok / read_frames (bare storage: exact); chunk_oracle for the wrapped stacks'
 EXHAUSTIVE = {'quick': False, 'thorough': True}
 FIXED = [(0, 1), (3, 7), (250, 9), (251, 2), (8191, 3), (8192, 4), (20000, 5), (70000, 6)]
 
 
-def mk(stack, items, wplan, rplan):
-    return sx.dump(['chunk', stack, ['items'] + [[n, s] for n, s in items], ['wplan'] + wplan, ['rplan'] + rplan])
+def mk(stack, items, wplan, rplan, cut=0):
+    c = ['chunk', stack, ['items'] + [[n, s] for n, s in items], ['wplan'] + wplan, ['rplan'] + rplan]
+    if cut:
+        c.append(['cut', cut])
+    return sx.dump(c)
 
 
 def fires(items, wplan, rplan):
@@ -38,6 +41,11 @@ def gen(rng, tier):
         for i in range(ncalls + (6 if tier == 'thorough' else 2)):
             for op in ([['give', 1], ['give', 3], ['give', 4096], 'intr', 'err'] if tier == 'thorough' else [['give', 1], 'intr', 'err']):
                 yield Case(mk(stack, seq, [], [['give', 100000]] * i + [op]), True, 'single-r-' + stack)
+    # the storage lost its last k bytes before the chunk is read back (cut inside a payload, inside a header, on a boundary)
+    for stack in ('bare', 'buf'):
+        for k in ([1, 2, 7, 8, 9, 12, 300, 309, 9000] if tier == 'thorough' else [1, 8, 9, 300, 9004]):
+            yield Case(mk(stack, small, [], [], cut=k), True, 'cut-' + stack)
+            yield Case(mk(stack, small, [], [['give', 3]], cut=k), True, 'cut-' + stack)
     n = 500 if tier == 'quick' else 12000
     for _ in range(n):
         stack = rng.choice(stacks)
